@@ -10,7 +10,7 @@ from vfacts import strip, walk, method_name, root_path, is_node
 from .prov import var_table, local_sources
 
 RULE = 'ERASER'
-FLOOR = 2
+FLOOR = 1
 ANCHORS = ['ExplicitUpwardInclusion::checkInternal']
 
 
